@@ -42,7 +42,7 @@ theorem Grow.set_ge {Z : Nat} {b b' : Src.B} (h : Grow Z b b') {i : Nat} (hi : (
   rw [this]; exact h.2 j hj
 
 /-- the node of a label becomes the `silent` node of the label statement -/
-theorem Grow.set_lab {Z : Nat} (b : Src.B) {i : Nat} (hi : i < Z) (k : Nat) : Grow Z b (b.set i (.silent k)) := by
+theorem Grow.set_lab {Z : Nat} (b : Src.B) {i : Nat} (hi : 0 < i ∧ i < Z) (k : Nat) : Grow Z b (b.set i (.silent k)) := by
   refine ⟨by rw [tbl_set]; simp, fun j hj => ?_⟩
   by_cases e : i = j
   · subst e
